@@ -334,9 +334,15 @@ def _root_.Occa.CExpr.FloatLit.exp10 (l : FloatLit) : Int :=
    | some (_, s, d) => if s = ['-'] then -(Int.ofNat (digitsVal 10 d)) else Int.ofNat (digitsVal 10 d))
   - Int.ofNat l.frac.length
 
+/-- number of digits of the exponent (0 when there is none) -/
+def _root_.Occa.CExpr.FloatLit.expDigits (l : FloatLit) : Nat :=
+  match l.expo with
+  | none => 0
+  | some (_, _, d) => d.length
+
 def floatLitVal (l : FloatLit) : Res :=
   if l.wf then
-    if l.mantissa < 2 ^ 53 ∧ -22 ≤ l.exp10 ∧ l.exp10 ≤ 22 ∧ (match l.expo with | none => 0 | some (_, _, d) => d.length) ≤ 3 then
+    if l.mantissa < 2 ^ 53 ∧ -22 ≤ l.exp10 ∧ l.exp10 ≤ 22 ∧ l.expDigits ≤ 3 then
       let d := decToFloat l.mantissa l.exp10
       if l.suf = [] then finite64 .double d else finite32 .float d.toFloat32
     else .unsupported
